@@ -390,6 +390,74 @@ pub fn decode_n_notime(st: &State, t: &mut Toks) -> PResult<String> {
     decode_n_on(st, t, true)
 }
 
+/// SDX <dict> <k> <rscript>: as SD, without any runtime: the future is polled by hand, every poll on a FRESH OS thread (a task of a
+/// work-stealing runtime resumes on whichever worker picks it up).  Scripts with timed pauses are not run this way.
+pub fn decode_n_hopping(st: &State, t: &mut Toks) -> PResult<String> {
+    use std::task::{RawWaker, RawWakerVTable, Waker};
+    let dict = st.dicts.get(t.next()?).ok_or_else(|| "unknown dict".to_string())?.clone();
+    let k = t.usize_dec()?;
+    let rs = parse_rscript(t)?;
+    let sh = Arc::new(Mutex::new(Shared::default()));
+    let mut stream = ScriptStream::new(rs, VecDeque::new(), Arc::clone(&sh));
+    let sh2 = Arc::clone(&sh);
+    let out = Arc::new(Mutex::new(String::from("SD")));
+    let out2 = Arc::clone(&out);
+    let mut fut: Pin<Box<dyn std::future::Future<Output = ()> + Send>> = Box::pin(async move {
+        for _ in 0..k {
+            let r = Codec::decode(&mut stream, Arc::clone(&dict)).await;
+            let mut o = out2.lock().unwrap();
+            match r {
+                Ok(m) => {
+                    o.push_str(" [OK ");
+                    obs_msg(&mut o, &m);
+                }
+                Err(e) => {
+                    o.push_str(if is_eof(&e) { " [EOF" } else { " [ERR" });
+                }
+            }
+            let _ = write!(o, " @{}]", sh2.lock().unwrap().consumed);
+        }
+    });
+    fn noop_raw() -> RawWaker {
+        fn clone(_: *const ()) -> RawWaker { noop_raw() }
+        fn noop(_: *const ()) {}
+        static VT: RawWakerVTable = RawWakerVTable::new(clone, noop, noop, noop);
+        RawWaker::new(std::ptr::null(), &VT)
+    }
+    let mut polls = 0usize;
+    let res: std::result::Result<bool, String> = loop {
+        polls += 1;
+        if polls > SPIN_LIMIT {
+            break Ok(false);
+        }
+        let h = std::thread::spawn(move || {
+            let waker = unsafe { Waker::from_raw(noop_raw()) };
+            let mut cx = Context::from_waker(&waker);
+            let r = catch_unwind(AssertUnwindSafe(|| fut.as_mut().poll(&mut cx).is_ready()));
+            (fut, r)
+        });
+        match h.join() {
+            Ok((f, Ok(ready))) => {
+                fut = f;
+                if ready {
+                    break Ok(true);
+                }
+            }
+            Ok((_, Err(p))) => break Err(p.downcast_ref::<String>().cloned().or_else(|| p.downcast_ref::<&str>().map(|s| s.to_string())).unwrap_or_else(|| "panic".into())),
+            Err(_) => break Err("poll thread died".into()),
+        }
+    };
+    let mut o = out.lock().unwrap().clone();
+    match res {
+        Ok(true) => {}
+        Ok(false) => o.push_str(" HANG"),
+        Err(p) => {
+            let _ = write!(o, " [PANIC @{}] {}", sh.lock().unwrap().consumed, p.replace('\n', " "));
+        }
+    }
+    Ok(o)
+}
+
 /// SDP: as SD, while 40 other decodes of the same process (same runtime) are parked in the middle of a frame body: each has
 /// read a legal prefix announcing 1000 octets and 30 octets of body, and its peer sends nothing more
 pub fn decode_n_parked(st: &State, t: &mut Toks) -> PResult<String> {
@@ -548,6 +616,7 @@ pub fn serve_big(st: &State, t: &mut Toks) -> PResult<String> {
             Ok(a)
         }
     };
+    let dict2 = Arc::clone(&dict);
     let res = run_to_end_spawned(async move { DiameterServer::verif_serve_stream(stream, handler, dict).await.is_ok() });
     let r = match res {
         Ok(Some(true)) => "closed".to_string(),
@@ -555,7 +624,24 @@ pub fn serve_big(st: &State, t: &mut Toks) -> PResult<String> {
         Ok(None) => "HANG".to_string(),
         Err(p) => format!("panicked:{}", p.replace('\n', " ").replace(' ', "_")),
     };
-    Ok(format!("SVBIG {} calls={} written={} frame={}", r, calls.load(std::sync::atomic::Ordering::SeqCst), written.lock().unwrap().0, flen))
+    // ... and afterwards, in the same process: frames with hostile announced lengths are still refused with an error (whatever
+    // the process has counted while reading 4 GiB)
+    let mut hostile = String::new();
+    for pre in [[1u8, 0x10, 0, 4], [1, 0, 0, 3], [1, 0xff, 0xff, 0xff]] {
+        let d = Arc::clone(&dict2);
+        let mut data = pre.to_vec();
+        data.extend_from_slice(&[0u8; 64]);
+        let script: VecDeque<REv> = vec![REv::Chunk(data), REv::Eof].into();
+        let mut stream = ScriptStream::new(script, VecDeque::new(), Arc::new(Mutex::new(Shared::default())));
+        let res = run_to_end(async move { Codec::decode(&mut stream, d).await.is_ok() });
+        hostile.push_str(match res {
+            Ok(Some(false)) => "e",
+            Ok(Some(true)) => "A",
+            Ok(None) => "H",
+            Err(_) => "P",
+        });
+    }
+    Ok(format!("SVBIG {} calls={} written={} frame={} hostile={}", r, calls.load(std::sync::atomic::Ordering::SeqCst), written.lock().unwrap().0, flen, hostile))
 }
 
 /// SV <dict> <rscript> <wscript> <nanswers> (A <history> | F)*: the per-connection loop
